@@ -834,6 +834,14 @@ func ruleC14Direction(c *Ctx, cts []cursorType) {
 				}
 			}
 		}
+		if ok && d == "reverse" && seekFn != nil {
+			// ... decided: the reverse Seek is run for the three ways bbolt's Seek can answer — past the last
+			// key (nil), on a later key, exactly on the target — and must step back in the first two and only
+			// there (whatever test it uses: bytes.Equal, bytes.Compare, a nil test)
+			if bad := decideReverseSeek(c, seekFn, nextFn); bad != "" {
+				ok, why = false, bad
+			}
+		}
 		if ok && d == "forward" && seekFn != nil {
 			for _, call := range callsIn(seekFn) {
 				if isCallTo(call, prev) {
@@ -1351,4 +1359,93 @@ func ruleC14DirCompare(c *Ctx) {
 		}
 	}
 	c.CallSites(n)
+}
+
+// decideReverseSeek runs a reverse cursor's Seek for the three answers of bbolt's Seek and reports the case
+// in which it does the wrong thing ("" when all are right or when the function cannot be evaluated — then the
+// structural checks above stand alone).
+func decideReverseSeek(c *Ctx, seekFn, nextFn *ssa.Function) string {
+	p := c.P
+	bseek := p.ExtMethod(bboltPath, "Cursor", "Seek")
+	prev := p.ExtMethod(bboltPath, "Cursor", "Prev")
+	last := p.ExtMethod(bboltPath, "Cursor", "Last")
+	beq := p.ExtFunc("bytes", "Equal")
+	bcmp := p.ExtFunc("bytes", "Compare")
+	isKey := func(v ssa.Value) bool {
+		for i := 0; i < 4; i++ {
+			switch x := v.(type) {
+			case *ssa.Extract:
+				call, ok := x.Tuple.(*ssa.Call)
+				return ok && x.Index == 0 && isCallTo(call, bseek)
+			case *ssa.Phi:
+				if len(x.Edges) == 0 {
+					return false
+				}
+				v = x.Edges[0]
+			default:
+				return false
+			}
+		}
+		return false
+	}
+	for _, sc := range []struct {
+		what     string
+		keyNil   bool
+		sign     int64 // key compared with the target
+		wantBack bool
+	}{
+		{"bbolt's Seek ran past the last key (nil)", true, -1, true},
+		{"bbolt's Seek landed on a key after the target", false, 1, true},
+		{"bbolt's Seek landed exactly on the target", false, 0, false},
+	} {
+		oracle := func(v ssa.Value) (AV, bool) {
+			call, isCall := v.(*ssa.Call)
+			if !isCall {
+				return AV{}, false
+			}
+			switch {
+			case isCallTo(call, bseek):
+				k := AV{Kind: "nonnil", Sym: "key"}
+				if sc.keyNil {
+					k = AV{Kind: "nil"}
+				}
+				return AV{Kind: "tuple", Tup: []AV{k, {Kind: "nonnil", Sym: "val"}}}, true
+			case isCallTo(call, beq) && len(call.Call.Args) == 2:
+				if isKey(call.Call.Args[0]) || isKey(call.Call.Args[1]) {
+					return avBool(sc.sign == 0 && !sc.keyNil), true
+				}
+			case isCallTo(call, bcmp) && len(call.Call.Args) == 2:
+				if isKey(call.Call.Args[0]) {
+					return avInt(sc.sign), true
+				}
+				if isKey(call.Call.Args[1]) {
+					return avInt(-sc.sign), true
+				}
+			}
+			if bi, isB := call.Call.Value.(*ssa.Builtin); isB && bi.Name() == "len" && len(call.Call.Args) == 1 && isKey(call.Call.Args[0]) {
+				if sc.keyNil {
+					return avInt(0), true
+				}
+				return avInt(5), true
+			}
+			return AV{}, false
+		}
+		evs, err := DecideCalls(seekFn, oracle, func(ci ssa.CallInstruction) bool {
+			if isCallTo(ci, prev) || isCallTo(ci, last) {
+				return true
+			}
+			cal, _ := calleeOf(ci.Common())
+			return cal != nil && nextFn != nil && cal == nextFn.Object()
+		})
+		if err != "" {
+			return ""
+		}
+		if sc.wantBack && len(evs) == 0 {
+			return "when " + sc.what + " the reverse Seek does not step back: the cursor must then stand on the greatest key not after the target (seeking past the end must land on the last element, not report exhaustion)"
+		}
+		if !sc.wantBack && len(evs) > 0 {
+			return "when " + sc.what + " the reverse Seek steps back all the same: the target itself is skipped"
+		}
+	}
+	return ""
 }
